@@ -444,12 +444,12 @@ pub fn main(env: &Env) -> i32 {
         evaluations = st.get("executions");
         distinct = st.keyed_sum();
     } else {
-        let n = env.scaled(60_000);
+        let n = env.scaled(1_000_000);
         let plans = 64u64;
         rep.rule = format!(
             "{} seeded runs; each run: swarm-configured mapping (0..12 classes x 0..16 members) + {} seeded multi-fault plans (cap drawn from {{inf,1,2-3,4-8,9-16,17-64}}, \
              1..6 faults from a per-run random subset of kinds, biased to first/last calls, 1/8 with a disk capacity); plus the quick tier's enumeration on 40 mappings and corpus files < 40 KB. \
-             distinct_nontrivial = distinct (mapping, plan) digests in which a fault fired or the cap truncated a call.",
+             distinct_nontrivial = distinct (mapping, plan) digests in which a fault fired or the cap truncated a call (the digest set is capped at 4 million entries per run, so this is a lower bound).",
             n, plans
         );
         let corpus: Vec<(String, Vec<u8>)> = gen::corpus(false).into_iter().filter(|(_, b)| b.len() < 40_000).collect();
